@@ -107,7 +107,7 @@ def run(prop, tier, seed, scratch, t0, replay):
                 "samples": samples,
                 "evaluations": len(samples),
                 "distinct_nontrivial": len(names),
-                "rule": "one program per template instantiation (alpha, unsigned, signed, float, compound): the generator is executed in a scratch copy of the working tree and each generated block is byte-compared with the checked-in block",
+                "rule": "one program per template instantiation (alpha, unsigned, signed, float, compound): the generator is executed in a scratch copy of the working tree (16 times from scratch in quick, 48 in thorough, plus once over the existing file) and each generated block is byte-compared with the checked-in block",
                 "exhaustive": True,
                 "regenerate_over_existing_file_identical": (over == checked_in) if over is not None else None,
                 "regenerations_from_scratch": reruns + 1,
